@@ -51,10 +51,20 @@ def none_only_at_exhaustion(ctx, rule, fv, who):
             bad = r
             break
     tail = fv.body.get("expr")
-    ctx.check(rule, "%s:none_only_at_exhaustion" % who, bad is None and len(rets) >= 1,
+    n_sites = len(rets)
+    if tail is not None and is_none(fv.term(tail)):
+        # `while pos < len { .. } None`: the tail None is reached exactly when the loop condition failed
+        stmts = fv.body.get("stmts", [])
+        last = stmts[-1] if stmts else None
+        last = last["e"] if last is not None and last.get("k") == "semi" else last
+        if last is not None and last.get("k") == "while" and exhaustion_verdict(fv.term(last["cond"]), False) is True:
+            n_sites += 1
+        else:
+            bad = bad or tail
+    ctx.check(rule, "%s:none_only_at_exhaustion" % who, bad is None and n_sites >= 1,
               "%d `return None` site(s), each under pos == seq.len()" % len(rets),
               "next() returns None under %s, which is not the exhaustion test: the iteration can end (or never start) "
-              "while bases are still unread" % ([("" if p else "!") + show(t) for t, p in [(fv.term(g), pol) for g, pol in fv.guards(bad)]] if bad else "?"),
+              "while bases are still unread" % ([("" if p else "!") + show(t) for t, p in [(fv.term(g), pol) for g, pol in fv.guards(bad)]] if bad is not None else "?"),
               line_of(bad) if bad else fv.fn["sp"])
 
 
